@@ -305,10 +305,31 @@ def run(ch: Choices, opts: Dict[str, Any]) -> Dict[str, Any]:
                 raise Violation("request", f"request|{kind}|{field}", {"field": field, "got": repr(gv), "want": repr(wv),
                                                                       "call": c, "request": repr(req), **sample})
         try:
-            request_to_qlink_1_0(req)
+            conv = request_to_qlink_1_0(req)
         except Exception as e:  # noqa: BLE001
             raise Violation("request", f"request|not-accepted-by-link-layer-conversion|type-{want['type'].name}|{type(e).__name__}",
                             {"error": str(e)[:300], "call": c, "request": repr(req), **sample})
+        # the link-layer form must carry the same values (field names of the qlink-interface dataclasses)
+        qmap = {"remote_node_id": "remote_node_id", "purpose_id": "purpose_id", "number": "number", "max_time": "max_time",
+                "time_unit": "time_unit", "minimum_fidelity": "minimum_fidelity", "priority": "priority",
+                "atomic": "atomic", "consecutive": "consecutive"}
+        if want["type"] != RequestType.K:
+            qmap.update({"rotation_X_local1": "x_rotation_angle_local_1", "rotation_Y_local": "y_rotation_angle_local",
+                         "rotation_X_local2": "x_rotation_angle_local_2", "random_basis_local": "random_basis_local"})
+        if want["type"] == RequestType.M:
+            qmap.update({"rotation_X_remote1": "x_rotation_angle_remote_1", "rotation_Y_remote": "y_rotation_angle_remote",
+                         "rotation_X_remote2": "x_rotation_angle_remote_2", "random_basis_remote": "random_basis_remote"})
+        for field, qfield in qmap.items():
+            gv = getattr(conv, qfield)
+            wv = want[field]
+            gvv = gv.value if isinstance(gv, Enum) else gv
+            wvv = wv.value if isinstance(wv, Enum) else wv
+            if gvv != wvv:
+                raise Violation("request", f"request|link-layer-form-wrong-value|{qfield}",
+                                {"field": qfield, "got": repr(gv), "want": repr(wv), "call": c, "converted": repr(conv), **sample})
+        tname = {RequestType.K: "ReqCreateAndKeep", RequestType.M: "ReqMeasureDirectly", RequestType.R: "ReqRemoteStatePrep"}[want["type"]]
+        if type(conv).__name__ != tname:
+            raise Violation("request", "request|link-layer-form-wrong-class", {"got": type(conv).__name__, "want": tname, **sample})
 
     # ---- response side ----------------------------------------------------------
     # deliveries grouped per request in delivery order
